@@ -39,7 +39,7 @@ impl Prop for C15 {
         "C15"
     }
     fn rule(&self) -> String {
-        "chains of 1..40 blocks (thorough: one family with ~4300 blocks of ~1 MiB so the block-size sum passes 2^32) x 8 coins, a random subset of script types present, non-monotonic timestamps incl. gaps summing past 2^32, ties for both maxima (equal values / equal sizes: the first must win), coinbases paying below/at/above the subsidy at heights around 0 and 209999/210000/420000 (index segments run with --start), sub-ranges; perturbed worker counts and read chunking. blocks without any transaction (never with --verify); Excluded because the statement does not cover them: timestamp 0, heights beyond 64 halvings, coinbases without outputs, totals beyond 2^64. Oracle: integer figures exact; decimal renderings within half a unit in the last place (+1e-12 relative) of the exact rational value. Non-trivial = report parsed and >=2 blocks; distinct by scenario hash.".into()
+        "chains of 1..40 blocks, one chain of 2^18 + 1..4095 small blocks (thorough: one family with ~4300 blocks of ~1 MiB so the block-size sum passes 2^32) x 8 coins, a random subset of script types present, non-monotonic timestamps incl. gaps summing past 2^32, ties for both maxima (equal values / equal sizes: the first must win), coinbases paying below/at/above the subsidy at heights around 0 and 209999/210000/420000 (index segments run with --start), sub-ranges; perturbed worker counts and read chunking. blocks without any transaction (never with --verify); Excluded because the statement does not cover them: timestamp 0, heights beyond 64 halvings, coinbases without outputs, totals beyond 2^64. Oracle: integer figures exact; decimal renderings within half a unit in the last place (+1e-12 relative) of the exact rational value. Non-trivial = report parsed and >=2 blocks; distinct by scenario hash.".into()
     }
     fn items(&self, tier: Tier) -> u64 {
         if tier == Tier::Quick {
@@ -56,7 +56,7 @@ impl Prop for C15 {
         }
     }
     fn required_probes(&self, tier: Tier) -> Vec<&'static str> {
-        let mut v = vec!["gap_sum_over_u32", "non_monotonic_timestamps", "tie_for_biggest_value", "tie_for_biggest_size", "coinbase_above_subsidy", "coinbase_below_subsidy", "height_around_halving", "sub_range", "coinbase_shaped_tx_not_first", "block_without_transactions_inside_range"];
+        let mut v = vec!["gap_sum_over_u32", "non_monotonic_timestamps", "tie_for_biggest_value", "tie_for_biggest_size", "coinbase_above_subsidy", "coinbase_below_subsidy", "height_around_halving", "sub_range", "coinbase_shaped_tx_not_first", "block_without_transactions_inside_range", "chain_longer_than_2_pow_18_blocks"];
         if tier == Tier::Thorough {
             v.push("block_size_sum_over_u32");
         }
@@ -79,6 +79,30 @@ impl Prop for C15 {
             let mut r = RunSpec::new("simplestats");
             r.threads = 8;
             scn.runs = vec![r];
+            h.check(&mut scn)?;
+            return Ok(());
+        }
+        if item == 1199 || (tier == Tier::Thorough && item == 19999) {
+            // a chain as long as real ones are counted in blocks (beyond 2^18): the means are over
+            // hundreds of thousands of samples
+            scn.family = "long-chain".into();
+            let n = (1usize << 18) + rng.usize(1, 4095);
+            let mut ts: u32 = 1_231_006_505;
+            for i in 0..n {
+                let mut b = marker_block(i as u64, 0, rng);
+                ts = ts.saturating_add(rng.range(1, 1200) as u32);
+                b.time = ts;
+                // block sizes vary so that a dropped tail shows in the mean
+                b.txs[0].inputs[0].script_sig = Bytes(vec![7u8; 2 + (i % 97)]);
+                scn.chain.push(b);
+            }
+            scn.layouts = vec![single_file_layout(n)];
+            scn.index = index_opts(rng);
+            scn.index.storage = "flush".into();
+            let mut r = RunSpec::new("simplestats");
+            r.threads = 4;
+            scn.runs = vec![r];
+            h.stats.probe("chain_longer_than_2_pow_18_blocks");
             h.check(&mut scn)?;
             return Ok(());
         }
